@@ -167,7 +167,7 @@ def subwf(eng, h, v):
     ck = r_of(m.get(tk))
     return z3.And(
         v > 0,
-        FA([r], z3.Implies(Desc(v, r), r > 0), patterns=[Desc(v, r)]),
+        FA([r], z3.Implies(Desc(v, r), z3.And(r > 0, eng.isinstance_term(h.cls(r), 'ConfigNode'))), patterns=[Desc(v, r)]),
         FA([r], z3.Implies(z3.And(In(v, r), is_composed(eng, h.cls(r))), tree(h, r)), patterns=[Desc(v, r)]),
         z3.Implies(is_composed(eng, h.cls(v)), tree(h, v)),
         FA([r, x], z3.Implies(z3.And(In(v, r), Desc(r, x)),
